@@ -36,7 +36,7 @@ pub fn plant(prob: &mut Prob) -> usize {
         if matches!(cone, ConeSpec::Zero(_)) {
             continue;
         }
-        let nn = matches!(cone, ConeSpec::Nonneg(_));
+        let nn = matches!(cone, ConeSpec::Nonneg(_) | ConeSpec::Soc(1));
         let p = if nn { 3 } else { 1 };
         if chance("infrow", p, 8) {
             let f = match choose("infmag", 8) {
@@ -212,6 +212,7 @@ pub fn run(tier: Tier) -> RunOutcome {
     };
     opts.force_nonneg = true;
     opts.allow_empty = false;
+    opts.allow_soc1 = true;
     let mode = choose("mode", 3); // 0: sequential; 1,2: concurrent
     let n_solver_threads = if mode == 0 { 1 } else { 1 + choose("nsolvers", 2) as usize };
     let n_setter_threads = if mode == 0 { 0 } else { 1 + choose("nsetters", 2) as usize };
